@@ -3,7 +3,7 @@ from __future__ import annotations
 
 from .. import scaffolds as S
 from ..engine_ch import Free, Harness
-from ..mdutil import build_doc, build_md, exc_record, free_doc, get_md, pipeline_nn, scaffold_frees, shard_extras, stream_view
+from ..mdutil import build_doc, build_md, deep_equal, exc_record, free_doc, get_md, pipeline_nn, scaffold_frees, shard_extras, stream_view
 from ..sym import no_tracing, realize
 
 EXPLANATION = (
@@ -126,9 +126,9 @@ def _run_ext(params, values):
         return [exc_record(e, "pipeline")], "raised"
     recs = []
     v1, v2 = stream_view(t1), stream_view(t2)
-    if v1 != v2:
+    if not deep_equal(v1, v2):
         recs.append({"key": "extension-not-conservative", "ext": params["ext"]})
-    if e1 != e2:
+    if not deep_equal(e1, e2):
         recs.append({"key": "extension-changes-env", "ext": params["ext"]})
     return recs, v2
 
@@ -152,7 +152,10 @@ def _drop_lf_after_tag(h: str) -> str:
 
 
 def _ref_free(params):
-    return scaffold_frees(params["scaffold"], params.get("spec", {})) + [Free("idef", kind="bool"), Free("slab", kind="bool")]
+    fr = scaffold_frees(params["scaffold"], params.get("spec", {})) + [Free("idef", kind="bool")]
+    if params.get("independent"):
+        fr.append(Free("slab", kind="bool"))
+    return fr
 
 
 def _prep_ref(params):
@@ -165,7 +168,7 @@ def _run_ref(params, values):
     twin = get_md(dict(params["cfg"], _twin=1))
     src = build_doc(params["scaffold"], values)
     twin.options["inline_definitions"] = values["idef"]
-    twin.options["store_labels"] = values["slab"]
+    twin.options["store_labels"] = values["slab"] if "slab" in values else (not values["idef"] if params.get("opposite") else values["idef"])
     try:
         try:
             t1, e1 = pipeline_nn(base, src)
@@ -178,11 +181,17 @@ def _run_ref(params, values):
         twin.options["inline_definitions"] = False
         twin.options["store_labels"] = False
     recs = []
-    if _strip_defs(stream_view(t2)) != stream_view(t1):
+    if not deep_equal(_strip_defs(stream_view(t2)), stream_view(t1)):
         recs.append({"key": "definitions-option-changes-tokens"})
-    if e1 != e2:
+    if not deep_equal(e1, e2):
         recs.append({"key": "definitions-option-changes-env"})
-    if _drop_lf_after_tag(h1) != _drop_lf_after_tag(h2):
+    from ..symstr import cps, replace, same
+    from ..sym import no_tracing as _nt
+
+    c1, c2 = cps(h1), cps(h2)
+    with _nt():
+        differs = not same(replace(c1, ">\n", ">"), replace(c2, ">\n", ">"))
+    if differs:
         recs.append({"key": "definitions-option-changes-html"})
     return recs, h2
 
@@ -311,10 +320,15 @@ def jobs(tier, seed):
                                                          "trigger": "|", "scaffold": sc, "spec": spec, "name": "ext-ctx"},
                      "weight": 4, "cpu_cap": 900, "wall_cap": 1500})
     # (3) definitions options
-    for sc in REF_SCAFFOLDS:
+    for si, sc in enumerate(REF_SCAFFOLDS):
         for base in presets:
-            jobs.append({"harness": "definitions", "params": {"cfg": base, "scaffold": sc, "spec": spec, "name": "defs"},
-                         "weight": 4, "cpu_cap": 900, "wall_cap": 1500})
+            # quick: the two options switched together (symbolic on/off) or opposite to each other; thorough: independently
+            p = {"cfg": base, "scaffold": sc, "spec": spec, "name": "defs"}
+            if tier == "thorough":
+                p["independent"] = True
+            elif si % 2:
+                p["opposite"] = True
+            jobs.append({"harness": "definitions", "params": p, "weight": 8, "cpu_cap": 2400, "wall_cap": 3600, "path_cap": 90})
     # (4) option routes
     for base in (JS, CM):
         jobs.append({"harness": "option_routes", "params": {"cfg": base, "name": "routes"}, "weight": 5, "cpu_cap": 900, "wall_cap": 1500})
